@@ -5,6 +5,7 @@ package main
 import (
 	"fmt"
 	"go/token"
+	"go/types"
 	"sort"
 	"strings"
 
@@ -1007,6 +1008,27 @@ func rootedAtReslice(v ssa.Value, seen map[ssa.Value]bool) bool {
 		if bi, ok := x.Call.Value.(*ssa.Builtin); ok && bi.Name() == "append" {
 			return rootedAtReslice(x.Call.Args[0], seen)
 		}
+		// a helper that is handed the list and a position and returns the shortened list (`removeRoleAtIndex(list, i)`):
+		// some return of it is a re-slice of its own list parameter
+		if sc := x.Call.StaticCallee(); sc != nil && len(sc.Blocks) > 0 && sc.Pkg != nil && strings.HasPrefix(sc.Pkg.Pkg.Path(), modPath) && x.Call.Signature().Results().Len() == 1 {
+			takesList := false
+			for _, a := range x.Call.Args {
+				if _, isSlice := a.Type().Underlying().(*types.Slice); isSlice {
+					takesList = true
+				}
+			}
+			if takesList {
+				for _, r := range returnsOf(sc) {
+					if len(r.Results) == 1 {
+						if sl, ok := retval(r, 0).(*ssa.Slice); ok {
+							if _, isPar := sl.X.(*ssa.Parameter); isPar && sl.High != nil {
+								return true
+							}
+						}
+					}
+				}
+			}
+		}
 	}
 	return false
 }
@@ -1169,7 +1191,6 @@ func c07r6(c *Ctx) {
 		return strings.Contains(o.Construct, "nonce key") || o.Kind == "anchor"
 	})
 }
-
 
 // c07r7: "the old holder loses both": a role handed over twice must not be stored twice (the remover takes one occurrence
 // out; a second one left behind keeps creating from a zeroed counter) — shared with C15-R5: the create role is appended only
